@@ -34,6 +34,16 @@ pub struct OpSpec {
     pub kind: OpKind,
     pub handle: u8,
     pub yields: u8,
+    /// a search whose consumer does not read anything until every other operation of the case has completed:
+    /// its items pile up at the client meanwhile and must not hold up anybody else
+    #[serde(default)]
+    pub lag: bool,
+}
+
+/// opens when every non-lagging operation has completed
+pub struct Gate {
+    left: std::sync::atomic::AtomicUsize,
+    notify: tokio::sync::Notify,
 }
 
 #[derive(Clone, Copy, Debug, PartialEq, Eq, Hash, Serialize, Deserialize)]
@@ -106,13 +116,21 @@ fn strat(_: &Ctx) -> BoxedStrategy<Case> {
         3 => items().prop_map(OpKind::SearchEntriesOnly),
         2 => (items(), 0u8..4).prop_map(|(i, k)| OpKind::SearchDropped(i, k)),
     ];
-    let op = (kind, 0u8..4, 0u8..4).prop_map(|(kind, handle, yields)| OpSpec { kind, handle, yields });
+    let op = (kind, 0u8..4, 0u8..4).prop_map(|(kind, handle, yields)| OpSpec { kind, handle, yields, lag: false });
+    // rarely: one more search with 1100-2500 entries and a lagging consumer, on a handle of its own
+    let lagging = proptest::option::weighted(0.006, (1100usize..2500, any::<bool>())).prop_map(|o| o.map(|(n, direct)| OpSpec { kind: if direct { OpKind::SearchDirect(vec![Item::Entry; n]) } else { OpKind::SearchEntriesOnly(vec![Item::Entry; n]) }, handle: 200, yields: 0, lag: true }));
     let unsol = vec(
         (any::<u16>(), prop_oneof![Just(UnsolKind::Zero), Just(UnsolKind::NeverResult), Just(UnsolKind::NeverEntry), Just(UnsolKind::NeverDone), Just(UnsolKind::LateResult), Just(UnsolKind::LateEntry)])
             .prop_map(|(before, kind)| Unsol { before, kind }),
         0..=4,
     );
-    (vec(op, 1..=12), vec(any::<u16>(), 100), vec(any::<bool>(), 1..6), unsol, chunk_plan(), any::<u64>(), start_id(), prop_oneof![2 => Just(vec![]), 1 => vec(prop_oneof![2 => Just(0u8), 1 => 1u8..8], 12)], prop_oneof![5 => Just(vec![]), 1 => vec(prop_oneof![2 => Just(0u32), 1 => proptest::sample::select(&[9_000u32, 20_000, 41_000, 70_000, 100_000, 150_000, 300_000][..])], 1..5)])
+    ((vec(op, 1..=12), lagging).prop_map(|(mut ops, l)| {
+        if let Some(l) = l {
+            let at = ops.len() / 2;
+            ops.insert(at, l);
+        }
+        ops
+    }), vec(any::<u16>(), 100), vec(any::<bool>(), 1..6), unsol, chunk_plan(), any::<u64>(), start_id(), prop_oneof![2 => Just(vec![]), 1 => vec(prop_oneof![2 => Just(0u8), 1 => 1u8..8], 12)], prop_oneof![5 => Just(vec![]), 1 => vec(prop_oneof![2 => Just(0u32), 1 => proptest::sample::select(&[9_000u32, 20_000, 41_000, 70_000, 100_000, 150_000, 300_000][..])], 1..5)])
         .prop_map(|(ops, ranks, glue, unsol, (chunks, yields), sched, start_id, rewinds, pads)| {
             // a stream dropped without finish() releases its id while the server may still send items under
             // it; re-using that id is then ambiguous by protocol, so such cases keep the counter monotonic
@@ -120,7 +138,7 @@ fn strat(_: &Ctx) -> BoxedStrategy<Case> {
             let ambiguous = ops.iter().any(|o: &OpSpec| matches!(o.kind, OpKind::SearchDropped(..))) || unsol.iter().any(|u: &Unsol| matches!(u.kind, UnsolKind::LateResult | UnsolKind::LateEntry));
             let rewinds = if ambiguous { vec![] } else { rewinds };
             // big entries with byte-sized reads would cost seconds per case: scale the read plan up
-            let chunks = if pads.iter().any(|p| *p > 0) { chunks.iter().map(|c: &usize| c.saturating_mul(3001)).collect() } else { chunks };
+            let chunks = if pads.iter().any(|p| *p > 0) || ops.iter().any(|o: &OpSpec| o.lag) { chunks.iter().map(|c: &usize| c.saturating_mul(3001)).collect() } else { chunks };
             Case { ops, ranks, glue, unsol, chunks, yields, sched, start_id, rewinds, pads }
         })
         .boxed()
@@ -163,7 +181,7 @@ fn pdu_msg(id: i64, kind: &OpKind, item: Option<Item>, tok: &str, pad: u32) -> R
     RespMsg::new(id, resp)
 }
 
-async fn client_op(ldap: &mut Ldap, idx: usize, spec: &OpSpec) -> OpObs {
+async fn client_op(ldap: &mut Ldap, idx: usize, spec: &OpSpec, gate: &Gate) -> OpObs {
     let mk = simops::marker(idx);
     let mut obs = OpObs::default();
     for _ in 0..spec.yields {
@@ -212,6 +230,15 @@ async fn client_op(ldap: &mut Ldap, idx: usize, spec: &OpSpec) -> OpObs {
                 }
             };
             obs.last_id = stream.ldap_handle().last_id();
+            if spec.lag {
+                loop {
+                    let n = gate.notify.notified();
+                    if gate.left.load(std::sync::atomic::Ordering::SeqCst) == 0 {
+                        break;
+                    }
+                    n.await;
+                }
+            }
             loop {
                 match stream.next().await {
                     Ok(Some(re)) => obs.tokens.push(simops::item_token(&re).1),
@@ -368,14 +395,18 @@ pub fn check(case: &Case, obs: &mut Obs) -> Result<(), Fail> {
             by_handle.entry(o.handle).or_default().push(i);
         }
         let mut tasks = Vec::new();
+        let gate = std::sync::Arc::new(Gate { left: std::sync::atomic::AtomicUsize::new(c.ops.iter().filter(|o| !o.lag).count()), notify: tokio::sync::Notify::new() });
         for (_, idxs) in by_handle {
             let mut ldap = conn.ldap.clone();
             let ops = c.ops.clone();
             let rewinds = c.rewinds.clone();
             let mm = conn.msgmap.clone();
+            let gate = gate.clone();
             tasks.push(tokio::spawn(async move {
                 let mut res = Vec::new();
                 for i in idxs {
+                    let g2 = gate.clone();
+                    let lagging = ops[i].lag;
                     if let Some(k) = rewinds.get(i).copied().filter(|k| *k > 0) {
                         let mut m = mm.lock().unwrap();
                         m.0 = (m.0 - k as i32).max(0);
@@ -385,11 +416,15 @@ pub fn check(case: &Case, obs: &mut Obs) -> Result<(), Fail> {
                         let spec = ops[i].clone();
                         // each op runs in its own task so that a panic is attributed to it
                         let jh = tokio::spawn(async move {
-                            let o = client_op(&mut l2, i, &spec).await;
+                            let o = client_op(&mut l2, i, &spec, &g2).await;
                             (o, l2)
                         });
                         jh.await
                     };
+                    if !lagging {
+                        gate.left.fetch_sub(1, std::sync::atomic::Ordering::SeqCst);
+                        gate.notify.notify_waiters();
+                    }
                     match h {
                         Ok((o, l2)) => {
                             ldap = l2;
@@ -504,6 +539,9 @@ pub fn check(case: &Case, obs: &mut Obs) -> Result<(), Fail> {
     }
     if case.pads.iter().any(|p| *p > 16_384) {
         obs.label("entries>16KiB");
+    }
+    if case.ops.iter().any(|o| o.lag) {
+        obs.label("lagging-consumer>1000-items");
     }
     if case.rewinds.iter().take(case.ops.len()).any(|k| *k > 0) {
         obs.label("id-counter-rewound");
@@ -627,7 +665,7 @@ pub fn property() -> Property {
     Property {
         id: "C01",
         level: "exploration",
-        rule: "generated histories on the simulated connection: 1-12 operations (7 single-result kinds, direct and EntriesOnly streaming searches with 0-6 items from entry/reference/intermediate, and streams the caller drops without finish() after k items so that the rest of their traffic arrives late) on 1-4 cloned handles with start delays; a generated global merge order of all response PDUs (any interleaving preserving per-operation order; PDUs optionally glued into one read), 0-4 unsolicited PDUs (id 0, never-issued ids with result/entry/done payloads, extra results/entries for completed ids) at generated positions, a read plan (1-byte, random chunk sizes, forced yields between chunks) and a scheduler seed for select! branch order. Oracle: every operation's observed token sequence equals what the server sent under that operation's own wire id (last_id), nobody sees an unsolicited token, driver ends cleanly. The id counter is positioned at generated starts so that message ids need 1-4 content octets. Lane alias: a response whose negative message id has the same content octets as a live operation's id (read unsigned) must never reach that operation. Non-trivial: >=2 operations outstanding at once AND (an inversion between request and completion order, or entries of >=2 searches interleaved, or an unsolicited PDU between two PDUs of a live operation). Distinct = hash of (op kinds+handles, send order, chunk plan).",
+        rule: "generated histories on the simulated connection: 1-12 operations (7 single-result kinds, direct and EntriesOnly streaming searches with 0-6 items from entry/reference/intermediate, and streams the caller drops without finish() after k items so that the rest of their traffic arrives late; in 0.6% of the cases one more search with 1100-2500 entries whose consumer reads nothing until every other operation has completed) on 1-4 cloned handles with start delays; a generated global merge order of all response PDUs (any interleaving preserving per-operation order; PDUs optionally glued into one read), 0-4 unsolicited PDUs (id 0, never-issued ids with result/entry/done payloads, extra results/entries for completed ids) at generated positions, a read plan (1-byte, random chunk sizes, forced yields between chunks) and a scheduler seed for select! branch order. Oracle: every operation's observed token sequence equals what the server sent under that operation's own wire id (last_id), nobody sees an unsolicited token, driver ends cleanly. The id counter is positioned at generated starts so that message ids need 1-4 content octets. Lane alias: a response whose negative message id has the same content octets as a live operation's id (read unsigned) must never reach that operation. Non-trivial: >=2 operations outstanding at once AND (an inversion between request and completion order, or entries of >=2 searches interleaved, or an unsolicited PDU between two PDUs of a live operation). Distinct = hash of (op kinds+handles, send order, chunk plan).",
         assumptions: &["tokio paused clock + RngSeed (tokio_unstable) make the history a function of the case", "late PDUs for completed ids are only scripted while ids cannot have been re-issued (no wrap-around within 12 operations)"],
         lanes: vec![
             Box::new(PLane { name: "routing", cases: |t| t.pick(2_500, 40_000), strat, check }),
